@@ -325,6 +325,12 @@ pub fn run_session(seed: u64, opts: &HostileOpts, out: &mut ScnOut, verbose: boo
     } else {
         *rng.pick(&[3_000usize, 100_000, 1_000_000])
     };
+    // an endpoint that accepts MAX_PACKET_SIZE packets (65536 fragments = 94 896 128 bytes): claims
+    // of the largest fragment counts are then assembled instead of refused
+    let rx_alloc = if Rng::new(seed ^ 0xb16a).chance(if opts.rx_focus { 0.04 } else { 0.08 }) { *Rng::new(seed ^ 0xb16b).pick(&[94_896_128usize, 100_000_000, 300_000_000]) } else { rx_alloc };
+    if rx_alloc >= 94_896_128 {
+        out.counters.inc("victims_accepting_max_packet_size");
+    }
     let big_claims = rx_alloc >= 100_000 || rng.chance(0.3);
     let me = SideCfg { nonce: if rng.chance(0.3) { 0u32.wrapping_sub(rng.below(200) as u32) } else { rng.u32() }, max_send_rate: *rng.pick(&[1472u32, 100_000, 2_000_000, u32::MAX]), max_receive_rate: u32::MAX, rx_alloc, keepalive: Some(5000) };
     let peer = SideCfg { nonce: if rng.chance(0.3) { 0xFFFFFu32.wrapping_sub(rng.below(200) as u32) | (rng.u32() << 20) } else { rng.u32() }, max_send_rate: u32::MAX, max_receive_rate: *rng.pick(&[1472u32, 100_000, u32::MAX]), rx_alloc: *rng.pick(&[3000usize, 1_000_000]), keepalive: None };
